@@ -44,10 +44,23 @@ def run(ctx):
     except LexShapeError as e:
         ctx.broken("Lexer.scan", str(e))
     sorted_views(ctx, model)
+    order_exact(ctx, model)
     intpayload(ctx, model)
     escape(ctx, model, lm)
     floats(ctx, model, lm)
     delim(ctx, model, lm)
+
+
+def order_exact(ctx, model):
+    """The sorted views are canonical only if the order between ints and decimals is exact (no rounding)."""
+    vi = model.cls(P, "ValueInt")
+    ad = vi.methods.get("asDecimal")
+    ok = ad is not None and norm(ad.node.body[-1]) == "return ValueDecimal(self.value)"
+    ctx.check("C08.sorted", ad or vi, None, ok,
+              "ValueInt.asDecimal rounds the payload (float(..)): an int beyond 2^53 and the decimal it rounds to are "
+              "then neither < nor > nor hash-equal, both stay in a set/map and the stable sort leaves them in insertion "
+              "order - equal containers render differently", expr="ValueInt.asDecimal exact",
+              site="ValueInt.asDecimal: exact promotion (sorted rendering needs a total order)")
 
 
 def sorted_views(ctx, model):
